@@ -5,6 +5,7 @@ From Coq.Strings Require Import Byte.
 From SP Require Import Bytes Params Msgpack Crypto Errors Packets Chunker Rand Verify Encrypt Decrypt Signcrypt SigncryptProofs.
 From SP Require Import BaseX Encodings Armor ArmorProofs ArmoredForms.
 From SP Require Import GoLang GoLang2 GoAst GoAstProofs GoAstProofs2 GoAstProofs3 GoAstProofs4a.
+From SP Require Import GoAstRecv.
 From Coq Require String.
 Import String.StringSyntax.
 Import ListNotations.
